@@ -12,8 +12,9 @@ BASELINE_OFF = ("for m in $(cat /w/out/gomods.txt); do MF=$(cd /repo/$m && . /w/
 LEDGER_NOTE = ("Trusted: TLC, JSON bridge, the harness's read-only projection through exported state readers (no hook). "
                "Amounts < 2^31. Scenarios: staking methods, node registration / unfreeze / hand-over / key theft, runtime registration "
                "and governance-model transitions, compute-role node updates, entity deregistration, governance proposals and votes, "
-               "executor commitments, VRF proofs; insecure and VRF beacon backends. Vault and key-manager methods, runtime messages "
-               "and TEE runtimes are not generated.")
+               "executor commitments, runtime equivocation evidence, incoming runtime messages, entity descriptors, vault methods, VRF "
+               "proofs, structurally mutated bodies under authentic signatures; insecure and VRF beacon backends. Key-manager methods, "
+               "ProveFreshness, messages emitted by runtimes and TEE runtimes are not generated.")
 
 CHECKS = {
     "C04": (
@@ -46,7 +47,8 @@ CHECKS = {
         "structural mutation; cases and seeded mutation neighbourhoods are fed to the real decoders/verifiers under panic, "
         "deadline and allocation guards; structural sweeps of valid quotes, collateral, reports, descriptors, commitments and "
         "protocol frames; HostProto.tla (runtime host protocol connection vs. a misbehaving runtime) checked by TLC and its scripts "
-        "replayed on the real connection; hostile transaction bytes are delivered to live multiplexers",
+        "replayed on the real connection; hostile transaction bytes are delivered to live multiplexers, and every single structural "
+        "mutation of the body of every generated transaction kind, correctly signed, goes through CheckTx and EstimateGas",
         "Grammar-derived exhaustive boundary cases (TLC) plus seeded random neighbourhoods on ten decode/verify entry points; "
         "accept/reject of node.UnmarshalBinary is compared with the transcription (drift), every entry point must terminate "
         "without panic, hang or allocation blow-up.",
@@ -81,7 +83,7 @@ CHECKS = {
         "histories on 4 real multiplexers (both backends, restarts from disk); recorded per-height results validated by TLC "
         "(TraceReplica.tla)",
         "Exhaustive TLC check that along every assignment of execution paths each replica reports Exec(own state, decided block); "
-        "all 108 distinct path rows are replayed on real replica networks over random block histories; TLC accepts a run only if "
+        "all 192 distinct path rows are replayed on real replica networks over random block histories; TLC accepts a run only if "
         "state root, every transaction result and the validator-update set agree on all replicas at every height.",
         LEDGER_NOTE + " Consensus-connection calls sequential per replica; CheckTx / EstimateGas / state queries run free in "
         "goroutines during block execution (not during Commit).", "DESIGN.md 4 C01"),
@@ -99,7 +101,9 @@ CHECKS = {
         "Exhaustive TLC check of the decision-table model (all region subsets <= 2 x time points x policies x collateral choices); "
         "every abstract case is executed on the repository's known-good quotes and collateral (quick: a few bytes per region; "
         "thorough: every single bit plus field-aware patterns); a violation is an acceptance the rule forbids or a mutant accepted "
-        "with different identity / report data.",
+        "with different identity / report data.  Quoting Enclave identity leg (TraceQE.tla): the QE report of each vector with one bit "
+        "of MISCSELECT / ATTRIBUTES / MRSIGNER / ISVPRODID flipped or another ISVSVN through the exported TCBBundle.Verify: a change "
+        "in a bit bound by the signed identity is never accepted.",
         "Trusted: TLC, JSON bridge, Intel's signatures on the vectors. No freshly signed quotes can be produced: soundness is "
         "explored through mutations of the known-good vectors only. One open known finding (FMSPC blacklist letter case).",
         "DESIGN.md 4 C18"),
@@ -115,14 +119,17 @@ CHECKS = {
         "multiplexer runs (hook-free, through ApplicationState.NewContext)",
         "For every failed transaction of the scenarios the set of changed raw keys of the whole consensus state and the decoded "
         "ledger before/after are recorded; TLC accepts the trace only if a transaction that failed after authentication changed "
-        "exactly the signer's account (nonce+1, balance-fee) and one rejected earlier changed nothing.",
+        "exactly the signer's account (nonce+1, balance-fee) and one rejected earlier changed nothing.  Vault scenarios: VaultOps.tla "
+        "stepped along the recorded transactions (TraceVault.tla); a failed transaction that changed the vault state is reported here; "
+        "Vault.tla design run (quota, authority, suspension, nonce statements).",
         LEDGER_NOTE, "DESIGN.md 4 C08"),
     "C09": (
         "TraceLedger.tla clauses C09 evaluated by TLC on real multiplexer runs with concretised signatures (valid, bit-flipped, "
         "other chain, other domain, replays, junk) and the harness's independent Ed25519/nonce verdict per submission",
         "TLC accepts a recorded run only if every transaction that took effect had a valid signature for this chain and domain "
         "and the account's current nonce, advanced exactly that nonce by one, and no signed byte string took effect twice "
-        "(executed-id set kept across blocks and replica restarts).",
+        "(executed-id set kept across blocks and replica restarts), and unauthentic or undecodable bytes executed on no replica on any "
+        "execution path (result codes of the proposing / validating / replaying / restarted replicas per transaction).",
         LEDGER_NOTE + " Ed25519 / SHA-512/256 trusted.", "DESIGN.md 4 C09"),
     "C15": (
         "LedgerModel.tla (exact floor arithmetic) checked by TLC against the fairness clauses F1-F5; pool behaviours replayed on "
